@@ -719,3 +719,120 @@ theorem nonstream_cases {t0 : Target} {size : Nat} {st : St} (h0 : Inv0 t0 size 
   cases h : st.target <;> simp [h, isStream] at this ⊢
 
 end Zvbi.Export
+
+/-! ### with the F12 repair `memcpy` never sees a NULL pointer -/
+namespace Zvbi.Export
+
+section ub
+variable {cfg : Cfg} {env : Env}
+
+theorem growSpace_ub (hg : cfg.nullGuard = true) (st : St) (n : Nat) : (growSpace cfg env st n).1.ub = st.ub := by
+  unfold growSpace
+  repeat' split
+  all_goals simp [hg]
+
+theorem sinkWrite_ub (st : St) (bs : Bytes) : (sinkWrite env st bs).1.ub = st.ub := by
+  obtain ⟨x, hx⟩ := sinkWrite_fields (env := env) (st := st) (bs := bs)
+  rw [hx]
+
+theorem fastFlush_ub (st : St) : (fastFlush env st).1.ub = st.ub := by
+  unfold fastFlush
+  simp only
+  by_cases hz : st.offset > 0
+  · simp only [hz, ite_true]
+    cases h : (sinkWrite env st (List.take st.offset st.buf)).2 <;> simp [sinkWrite_ub]
+  · simp [hz]
+
+theorem append_ub (st : St) (src : Bytes) (site : String) : (append st src site).ub = st.ub := by
+  unfold append oobFault
+  split <;> rfl
+
+theorem putc_ub (hg : cfg.nullGuard = true) (st : St) (c : Nat) : (putc cfg env st c).ub = st.ub := by
+  unfold putc
+  simp only
+  cases h : (growSpace cfg env st 1).2 <;> simp [append_ub, growSpace_ub hg]
+
+theorem stream_ub (st : St) (bs : Bytes) :
+    (if (fastFlush env st).2 = true then
+        (if (sinkWrite env (fastFlush env st).1 bs).2 = true then (sinkWrite env (fastFlush env st).1 bs).1
+         else { (sinkWrite env (fastFlush env st).1 bs).1 with werr := true })
+       else (fastFlush env st).1).ub = st.ub := by
+  cases h1 : (fastFlush env st).2
+  · simp [fastFlush_ub]
+  · cases h2 : (sinkWrite env (fastFlush env st).1 bs).2 <;> simp [sinkWrite_ub, fastFlush_ub]
+
+theorem write_ub (hg : cfg.nullGuard = true) (st : St) (bs : Bytes) : (write cfg env st bs).ub = st.ub := by
+  unfold write
+  simp only
+  by_cases hw : st.werr = true
+  · simp [hw]
+  · rw [if_neg hw]
+    by_cases hb : (isStream st.target && decide (bs.length ≥ 4096)) = true
+    · rw [if_pos hb]; exact stream_ub st bs
+    · rw [if_neg hb]
+      cases h : (growSpace cfg env st bs.length).2 <;> simp [append_ub, growSpace_ub hg, hg]
+
+theorem flush_ub (st : St) : (flush env st).ub = st.ub := by
+  unfold flush
+  by_cases hw : st.werr = true
+  · simp [hw]
+  · rw [if_neg hw]
+    by_cases hs : isStream st.target = true
+    · rw [if_pos hs]; exact fastFlush_ub st
+    · rw [if_neg hs]
+
+theorem direct_ub (hg : cfg.nullGuard = true) (st : St) (n : Nat) (bs : Bytes) : (direct cfg env st n bs).ub = st.ub := by
+  unfold direct
+  simp only
+  cases h : (growSpace cfg env st n).2
+  · simp [growSpace_ub hg]
+  · by_cases he : (bs.take n).isEmpty = true
+    · simp [he, growSpace_ub hg]
+    · simp [he, append_ub, growSpace_ub hg]
+
+theorem printf_ub (hg : cfg.nullGuard = true) (st : St) (s : Bytes) : (printf cfg env st s).ub = st.ub := by
+  unfold printf
+  simp only
+  by_cases hw : st.werr = true
+  · simp [hw]
+  · rw [if_neg hw]
+    by_cases hfp : st.target = .fp
+    · rw [if_pos hfp]; exact stream_ub st s
+    · rw [if_neg hfp]
+      cases hv : vsn st.buf st.offset (st.buf.length - st.offset) s with
+      | none => simp [oobFault]
+      | some b1 =>
+        simp only
+        by_cases hfit : s.length < st.buf.length - st.offset
+        · simp [hfit]
+        · rw [if_neg hfit]
+          cases h : (growSpace cfg env { st with buf := b1 } (s.length + 1)).2
+          · simp [growSpace_ub hg]
+          · simp only [ite_true]
+            cases hv2 : vsn (growSpace cfg env { st with buf := b1 } (s.length + 1)).1.buf st.offset
+                ((growSpace cfg env { st with buf := b1 } (s.length + 1)).1.buf.length - st.offset) s with
+            | none => simp [oobFault, growSpace_ub hg]
+            | some b2 =>
+              simp only
+              split <;> simp [growSpace_ub hg]
+
+theorem step_ub (hg : cfg.nullGuard = true) (st : St) (op : Op) : (step cfg env st op).ub = st.ub := by
+  unfold step
+  split
+  · rfl
+  · cases op with
+    | putc c => exact putc_ub hg st c
+    | write bs => exact write_ub hg st bs
+    | putsNull => rfl
+    | puts bs => exact write_ub hg st bs
+    | printf bs => exact printf_ub hg st bs
+    | flush => exact flush_ub st
+    | direct n bs => exact direct_ub hg st n bs
+
+theorem run_ub (hg : cfg.nullGuard = true) (ops : List Op) : ∀ st : St, (run cfg env st ops).ub = st.ub := by
+  induction ops with
+  | nil => intro st; rfl
+  | cons op rest ih => intro st; simp only [run, List.foldl] at ih ⊢; rw [ih, step_ub hg]
+
+end ub
+end Zvbi.Export
